@@ -506,6 +506,10 @@ def witness(run, oid):
 
 
 def check(run):
+    # the quorum predicates every check_threshold ends in: exact fractions, exact u128 comparison
+    from . import C01
+    C01.ob_constants(run, "O9.10a")
+    C01.ob_is_met(run, "O9.10b")
     ob_construct(run, "O9.1")
     ob_vote_try_new(run, "O9.2")
     ob_kind_binding(run, "O9.3")
